@@ -404,6 +404,127 @@ func init() {
 	}
 }
 
+// ---------------------------------------------------------------------------
+// the extra files themselves: their NAMES and their ATTRIBUTES
+// ---------------------------------------------------------------------------
+//
+// "After a successful installation the plugin directory holds exactly the
+// regular top-level files of the source … whatever other files that directory
+// contains": the statement makes no exception for how an extra file is called,
+// how large it is or which permission bits it carries. The shapes above give
+// their extra files two tame names (a-lib.txt, zz-readme.txt); the classes
+// below vary what a copy step, a filter or a "hardening" might key on. Every
+// class has members sorting before AND after the candidate (byte order, the
+// order of a directory walk), so a copy that stops at the offending file stops
+// once before and once after the executable was copied. All names are legal
+// POSIX file names and valid UTF-8; none contains a slash; none starts with
+// "notation-" (candidates are a dimension of their own above).
+// The hand labels do not depend on the class: usable, valid metadata.
+type nameClass struct {
+	tag   string
+	names []string
+}
+
+var longName = "zz-" + strings.Repeat("long-name.", 25) + "xy" // 255 bytes: NAME_MAX
+
+var extraNameClasses = []nameClass{
+	{"blank-parentheses", []string{"LICENSE (MIT).txt", " leading blank.txt", "release notes (v1.1).txt", "trailing blank.txt "}},
+	{"punctuation", []string{"Makefile,v", "a=b+c@d#1%20~.txt", "z[1]{2}!^.txt"}},
+	{"shell-metacharacters", []string{"a&b;c|d.txt", "it's \"q\" `x` $HOME.txt", "z*?<>.txt"}},
+	{"backslash-colon", []string{"C:\\lib\\x.dll", "z:alternate-stream"}},
+	{"non-ascii", []string{"LI\u00c9SMOI.txt", "\u00c4nderungen.txt", "\u8bf4\u660e.txt", "\U0001f4e6-notes.txt"}},
+	{"leading-dot-dash", []string{".hidden", "..data", "-rf", "--help", "zz.", "~backup~"}},
+	{"control-characters", []string{"a\ttab.txt", "line\nbreak.txt", "z\x07bell\x7f.txt"}},
+	{"longest-name", []string{"A-" + strings.Repeat("Long-Name.", 25) + "xyz", longName}},
+	// collisions by construction: names that differ only by case / only by Unicode normalisation form
+	{"case-and-normalisation-twins", []string{"README.TXT", "ReadMe.txt", "readme.txt", "caf\u00e9.txt", "cafe\u0301.txt", "CAF\u00c9.TXT"}},
+}
+
+// Attributes of an extra file other than its name: size {0 bytes, larger than
+// twice the 32 KiB buffer of io.Copy}, permission bits {read-only, private,
+// executable although it is no candidate, world-writable}.
+var largeBody = strings.Repeat("0123456789abcdef0123456789abcdef0123456789abcdef0123456789abcde\n", 1100) + "end of the large extra file\n" // 70 KiB
+
+var extraAttributeFiles = []sfile{
+	{"a-empty.dat", 0o644, ""},
+	{"a-helper.sh", 0o755, "#!/bin/sh\n# executable helper, not a plugin candidate\nexit 0\n"},
+	{"a-world-writable.txt", 0o666, "world-writable extra file\n"},
+	{"zz-empty", 0o600, ""},
+	{"zz-large.bin", 0o644, largeBody},
+	{"zz-private.key", 0o600, "private extra file\n"},
+	{"zz-read-only.txt", 0o444, "read-only extra file\n"},
+}
+
+// quickExtras selects the name / attribute shapes of the quick tier: the union
+// of all name classes in one source (with either kind of candidate) and the
+// attribute mix. The thorough tier adds every class on its own (executable
+// candidate), which tells the classes apart in the violation key.
+var quickExtras = map[string]bool{
+	"dir-exe+names-all-classes":       true,
+	"dir-nonexec+names-all-classes":   true,
+	"dir-exe+extras-mixed-attributes": true,
+}
+
+var nonexecExtras = map[string]bool{
+	"dir-nonexec+names-all-classes":       true,
+	"dir-nonexec+extras-mixed-attributes": true,
+}
+
+// narrow: shapes that meet the two versions of narrowVersions in BOTH tiers
+// (what the name or the size of an extra file does to an installation does not
+// depend on the version; relative to the installed versions lower / equal /
+// higher / installed-version-invalid all still occur).
+var narrow = map[string]bool{}
+var narrowVersions = map[string]bool{"1.0.0-beta.11": true, "1.0.0": true}
+
+func init() {
+	add := func(label, family string, mode os.FileMode, extras []sfile) {
+		if family == "nonexec" && !nonexecExtras[label] {
+			return
+		}
+		all := append([]sfile(nil), extras...)
+		shapes = append(shapes, shape{label, "dir", func(v string) []sfile {
+			return append(append([]sfile(nil), all...), cand(mode)(v))
+		}, true, true, quickExtras[label], family, true})
+		narrow[label] = true
+	}
+	for _, c := range []struct {
+		tag  string
+		mode os.FileMode
+	}{{"exe", 0o755}, {"nonexec", 0o644}} {
+		var union []sfile
+		for _, nc := range extraNameClasses {
+			var fs []sfile
+			seenBefore, seenAfter := false, false
+			for _, n := range nc.names {
+				if strings.Contains(n, "/") || strings.HasPrefix(n, "notation-") || n == "" || len(n) > 255 {
+					panic("extra file name outside the stated alphabet: " + strconv.Quote(n))
+				}
+				if n < exeName {
+					seenBefore = true
+				} else {
+					seenAfter = true
+				}
+				fs = append(fs, sfile{n, 0o644, "extra file named " + strconv.Quote(n) + "\n"})
+			}
+			if !seenBefore || !seenAfter {
+				panic("name class " + nc.tag + " needs members sorting before and after the candidate")
+			}
+			add("dir-"+c.tag+"+names-"+nc.tag, c.tag, c.mode, fs)
+			union = append(union, fs...)
+		}
+		add("dir-"+c.tag+"+names-all-classes", c.tag, c.mode, union)
+		add("dir-"+c.tag+"+extras-mixed-attributes", c.tag, c.mode, extraAttributeFiles)
+	}
+	for _, m := range []map[string]bool{quickExtras, nonexecExtras} {
+		for l := range m {
+			if shapeOf(l) == nil {
+				panic("unknown extra-file shape: " + l)
+			}
+		}
+	}
+}
+
 func shapeOf(label string) *shape {
 	for i := range shapes {
 		if shapes[i].Label == label {
@@ -579,7 +700,14 @@ func showTree(es []entry) string {
 		if len(h) > 8 {
 			h = h[:8]
 		}
-		fmt.Fprintf(&sb, "%s(%o %s)", e.P, e.M&uint32(fs.ModePerm), h)
+		p := e.P
+		if len(p) > 80 {
+			p = fmt.Sprintf("%s...(%d bytes)", p[:40], len(p))
+		}
+		if strings.IndexFunc(p, func(r rune) bool { return r < 0x20 || r == 0x7f }) >= 0 {
+			p = strconv.Quote(p) // keep one violation on one line
+		}
+		fmt.Fprintf(&sb, "%s(%o %s)", p, e.M&uint32(fs.ModePerm), h)
 	}
 	return "[" + sb.String() + "]"
 }
@@ -1314,6 +1442,9 @@ func alphabet(thorough bool) (ops []op, vs []ver, shs []shape) {
 				if v.PlainOnly && !plainShape(&s) {
 					continue
 				}
+				if narrow[s.Label] && !narrowVersions[v.S] {
+					continue
+				}
 				if s.Sub && (!thoroughGenerated[v.S] || (!thorough && !quickGenerated[v.S])) {
 					// what a sub-directory, a misnamed or an invalid answer does to an installation
 					// does not depend on the version: these shapes meet the six versions of the quick set only
@@ -1518,7 +1649,25 @@ func search(r *hx.Run) {
 	r.Extra["source_shapes_generated"] = nsub
 	r.Extra["near_miss_metadata_names"] = len(nearMissNames)
 	r.Extra["invalid_metadata_variants"] = len(badMetadata)
-	r.Extra["alphabet"] = "Install: (plain shapes x all versions + generated shapes {sub-directories, near-miss metadata names, invalid metadata} x six versions (quick tier: three)) x overwrite; Uninstall(foo)"
+	r.Extra["alphabet"] = "Install: (plain shapes x all versions + generated shapes {sub-directories, near-miss metadata names, invalid metadata} x six versions (quick tier: three) + extra-file shapes {name classes, attribute mix} x two versions (both tiers)) x overwrite; Uninstall(foo)"
+	nameClasses := map[string][]string{}
+	nExtraShapes := 0
+	for _, s := range shs {
+		if !narrow[s.Label] {
+			continue
+		}
+		nExtraShapes++
+		var names []string
+		for _, f := range s.Files("1.0.0") {
+			if f.Rel != exeName {
+				names = append(names, fmt.Sprintf("%s (%o, %d bytes)", strconv.Quote(f.Rel), f.Mode&os.ModePerm, len(f.Body)))
+			}
+		}
+		nameClasses[s.Label] = names
+	}
+	r.Extra["source_shapes_extra_file_names_and_attributes"] = nExtraShapes
+	r.Extra["extra_file_classes"] = nameClasses
+	r.Extra["extra_file_name_classes_defined"] = len(extraNameClasses)
 	r.Extra["initial_states"] = len(inits)
 	r.Extra["worker_processes"] = nw
 	var byModel = map[string]int{}
@@ -1595,13 +1744,14 @@ func main() {
 		return
 	}
 	r := hx.New("C20")
-	r.Rule = "breadth-first closure of the state graph of CLIManager on a real plugin root: state = file tree (paths, modes, bytes) under the root, deduplicated by a canonical hash; from every reachable state every operation {Install(version x overwrite x source shape), Uninstall(foo)} is executed by the real code in a fresh directory (shortest history replayed first) and judged by a reference installer that sees only the generator's description of the source and the model of the state; non-trivial = distinct (state, operation) pairs where a plugin directory exists and the source is usable with valid metadata (the version rule or overwrite decides), and uninstalls of an existing directory"
+	r.Rule = "breadth-first closure of the state graph of CLIManager on a real plugin root: state = file tree (paths, modes, bytes) under the root, deduplicated by a canonical hash; from every reachable state every operation {Install(version x overwrite x source shape), Uninstall(foo)} is executed by the real code in a fresh directory (shortest history replayed first) and judged by a reference installer that sees only the generator's description of the source and the model of the state; source shapes = {single file, directory} x candidate {executable, not executable, two, none, misnamed} x extra files {none, sorting before, after, both} x sub-directories {position x filled/empty} x metadata {near-miss names, invalid answers} x NAMES of the extra files {blank and parentheses, punctuation, shell metacharacters, backslash and colon, non-ASCII, leading dot / dash / trailing dot, control characters, 255-byte names, twins differing only by case or by Unicode normalisation form - every class with members sorting before and after the candidate} x ATTRIBUTES of the extra files {0 bytes, 70 KiB, modes 0444 0600 0666 0755}; non-trivial = distinct (state, operation) pairs where a plugin directory exists and the source is usable with valid metadata (the version rule or overwrite decides), and uninstalls of an existing directory"
 	r.Assumptions = []string{
 		"plugins are POSIX shell scripts whose bytes embed name and version (an installed copy is self-describing); /bin/sh exists",
 		"what is enforced is the statement only: refusal is demanded for invalid/misnamed metadata and for an existing versioned plugin without overwrite unless the new version is strictly higher (whatever the source); success is demanded only for the two plain sources (the executable, the directory holding only it) with a valid version and no existing plugin / overwrite / strictly higher version; every other usable-labelled shape is tied to the plain shape of its family by the differential clause; sources labelled unusable, a non-semantic version with nothing to compare against, may go either way (recorded); an existing plugin that does not answer (regular file notation-foo present: silent exit 1, stderr text, stderr JSON error, garbage answer, other name, not executable, empty file) has no version, so without overwrite it must not be replaced; whatever Install reports, the stated consequences of a refusal / a success are checked",
 		"recorded, not judged (outcome classes recorded:*): entries under the root outside <root>/foo, the metadata values returned by Install, acceptance of a source labelled unusable, Uninstall on a directory that holds no working plugin; error texts and error types are never compared",
 		"all operations of one history use ONE source location: files that stay are rewritten in place (same inode), the tree before the judged operation is taken before its source is prepared - an installed plugin must not depend on what later happens to its source",
 		"semantic-version precedence is the row order of the hand-written table `precedence` (1.0.0 and 1.0.0+b1 share a row)",
+		"names and attributes of extra files: the statement excepts no regular top-level file of the source ('exactly the regular top-level files of the source', 'whatever other files that directory contains'), so an extra file with any legal POSIX name (valid UTF-8, no slash, not starting with notation-), any size and any permission bits is held to the same three clauses as a-lib.txt: a success installs exactly the source's files, a refusal leaves the plugin's files and behaviour untouched, and the outcome and the installed plugin equal those of the directory holding only the candidate (differential clause); these shapes meet two versions (a pre-release, a release) in both tiers; the quick tier has the union of all name classes in one source (executable and non-executable candidate) and the attribute mix, the thorough tier also every name class on its own; names that are not valid UTF-8 and names only another file system could hold are not in the alphabet; the scratch file system is case-sensitive and normalisation-preserving (tmpfs)",
 		"file modes of installed extra files are part of the state hash but not of the 'exactly the source files' oracle (names and bytes; the executable must be executable)",
 		"each case runs in a single-case worker process so that no foreign child holds a descriptor of a freshly written script (ETXTBSY)",
 	}
